@@ -44,7 +44,7 @@ func checkC20(p *core.Program, r *core.Report) {
 	r.Trusted = append(r.Trusted, "promhttp.InstrumentHandlerCounter/InFlight count each request once by (method, code) and decrement the gauge on return", "promauto registers collectors on the given registerer", "net/http routes by longest pattern")
 	r.NotDecided = append(r.NotDecided, "counting inside promhttp", "gauge decrement when the handler panics", "scrape availability under load")
 
-	run := p.Func("server", "Run")
+	run := serverRunFn(p)
 	if run == nil {
 		r.Violation("O20.1", "anchor server.Run", "-", "not found")
 		return
@@ -54,6 +54,15 @@ func checkC20(p *core.Program, r *core.Report) {
 	r.AnalysedFn(core.FuncName(run))
 	events := ev.Events()
 	cfgT := ev.Params[0]
+	for i, prm := range run.Params {
+		// the configuration: the parameter whose type is a struct of the server's own package
+		if n := namedOf(prm.Type()); n != nil && n.Obj().Pkg() != nil && run.Pkg != nil && n.Obj().Pkg() == run.Pkg.Pkg {
+			if _, isStruct := n.Underlying().(*types.Struct); isStruct && i < len(ev.Params) {
+				cfgT = ev.Params[i]
+				break
+			}
+		}
+	}
 	// http.Server literals: calls whose argument is an allocation of net/http.Server, or stores; find via events' args
 	type srv struct {
 		alloc *tf.Term
